@@ -41,7 +41,8 @@ Print Assumptions C15_template_value.
 
 (* unchanged up to maxLen+len(suffix); beyond: p ++ suffix with |p| <= maxLen, p = an untouched
    prefix up to its last ASCII byte followed by a well-formed non-ASCII run (never a broken rune
-   before the suffix); on valid UTF-8 input p is a prefix cut at a rune boundary, at most 3 bytes short *)
+   before the suffix); on valid UTF-8 input p is THE longest well-formed prefix of at most maxLen bytes
+   (a prefix cut at a rune boundary, at most 3 bytes short) *)
 Theorem C15_truncate_spec : forall loc maxlen suffix r, (0 < maxlen)%Z ->
   let v := getf r loc in
   ((Z.of_nat (length v) <= maxlen + Z.of_nat (length suffix))%Z -> run_truncate loc maxlen suffix r = Ok r) /\
@@ -50,7 +51,8 @@ Theorem C15_truncate_spec : forall loc maxlen suffix r, (0 < maxlen)%Z ->
      (Z.of_nat (length p) <= maxlen)%Z /\
      (exists head tail, p = head ++ tail /\ is_prefix_of head v /\ valid_utf8 tail /\
                         Forall (fun b => 128 <= b) tail /\ (head = [] \/ exists h b, head = h ++ [b] /\ b <= 127)) /\
-     (valid_utf8 v -> is_prefix_of p v /\ valid_utf8 p /\ (maxlen - 3 <= Z.of_nat (length p))%Z)).
+     (valid_utf8 v -> is_prefix_of p v /\ valid_utf8 p /\ (maxlen - 3 <= Z.of_nat (length p))%Z /\
+        forall q, is_prefix_of q v -> valid_utf8 q -> (Z.of_nat (length q) <= maxlen)%Z -> (length q <= length p)%nat)).
 Proof. exact truncate_spec_lemma. Qed.
 Print Assumptions C15_truncate_spec.
 
